@@ -219,6 +219,22 @@ PROPS["C07"] = dict(
     thorough=dict(shards=16, timeout=2400),
 )
 
+PROPS["C14"] = dict(
+    pkg="c14", level="exploration", design_ref="DESIGN.md section 3, C14",
+    technique="generated never-before-used type families released through a barrier under the race detector with a computed 'alone' template; buffer-overwrite metamorphic check; rapid state machine of pooled coders against brand-new coders",
+    level_text=("(a) 480 generated families of named struct types (nested, pointer, slice and recursive members) are each used for the first time by 2-8 goroutines released "
+                "together, mixing encode and decode of the nesting and the nested type; every result must equal the bytes/value computed for that family alone and the binary runs "
+                "under the race detector. (b) A decoded value's canonical form must not change after the input buffer is overwritten and pooled coders are recycled. (c) A rapid "
+                "state machine interleaves pooled decode/encode operations (both modes, decoder options, failing inputs, double encodes, RPC codec messages with and without the "
+                "simple header); each step must behave like a brand-new coder."),
+    level_note="(a) samples the Go scheduler: each family gives one chance per process for the racing window; volume (families x shards x tiers) makes it reliable for windows as wide as the struct registration. Built with -race in both tiers.",
+    rule=("first-use: one case per family (all non-trivial: the first use happens inside the barrier window by construction); aliasing: rapid-drawn (type, value, mode, entry), non-trivial = the "
+          "stream contains a string or byte payload; pool-hygiene: rapid histories, non-trivial = a step that follows a failing or reference-mode step; warm: concurrent round trips. Distinct by case text."),
+    assumptions=["each family type is touched by no other code in the process before its case", "expected bytes per family are pinned against the library single-threaded (TestATemplateAlone)"],
+    quick=dict(shards=4, timeout=900, race=True),
+    thorough=dict(shards=16, timeout=2400, race=True),
+)
+
 # properties not claimed yet (kept current as checks land)
 _ALL = ["C%02d" % i for i in range(1, 21)]
 NOT_APPLICABLE = [dict(property_id=p, reason="check not built yet in this revision (planned in DESIGN.md section 3); not a limit of the technique")
